@@ -732,7 +732,20 @@ class Engine:
         if isinstance(node.value, ast.Call):
             f = node.value.func
             if isinstance(f, ast.Attribute) and isinstance(f.value, ast.Name) and f.value.id == "logger":
-                return [(st, Out("next"))]
+                # the logging call itself is a no-op that does not raise (assumption), but its ARGUMENTS are evaluated when
+                # they contain a call or a read of an attribute declared effectful (a property with side effects)
+                args = list(node.value.args) + [k.value for k in node.value.keywords]
+                effectful = any(
+                    isinstance(n, ast.Call) or (isinstance(n, ast.Attribute) and (self.c.attrs.get(n.attr) or {}).get("effect"))
+                    for a in args
+                    for n in ast.walk(a)
+                )
+                if not effectful:
+                    return [(st, Out("next"))]
+                res = []
+                for s, vals, e in self.eval_seq(args, st):
+                    res.append(self._raise_out(s, e) if e else (s, Out("next")))
+                return res
         res = []
         for s, v, e in self.eval(node.value, st):
             res.append(self._raise_out(s, e) if e else (s, Out("next")))
